@@ -255,7 +255,7 @@ impl Property for C04 {
         C04
     }
     fn n_cases(&self, tier: Tier) -> u64 {
-        tier.pick(30_000, 1_000_000)
+        tier.pick(120_000, 1_000_000)
     }
     fn chunk(&self, _tier: Tier) -> u64 {
         250
